@@ -713,6 +713,13 @@ resilience:
 		x13X("dup-filter-names", "filters.5.name", "proxy"),
 		x13X("filter-named-END", "filters.5.name", "END", "flow.6.filter", "END"),
 		x13X("namespace-on-fallback", "flow.6.namespace", x13AddMark{"copy"}),
+		// a node whose filter runs in a namespace no RequestBuilder has written to
+		x13X("namespace-without-request-on-validator", "flow.0.namespace", x13AddMark{"nowhere"}),
+		x13X("namespace-without-request-on-ratelimiter", "flow.1.namespace", x13AddMark{"nowhere"}),
+		x13X("namespace-without-request-on-proxy", "flow.3.namespace", x13AddMark{"nowhere"}),
+		x13X("namespace-without-request-on-respadaptor", "flow.4.namespace", x13AddMark{"nowhere"}),
+		x13X("namespace-without-request-on-fallback", "flow.6.namespace", x13AddMark{"nowhere"}),
+		x13X("namespace-of-builder-changed", "flow.2.namespace", "elsewhere", "flow.3.namespace", x13AddMark{"copy"}),
 		x13X("dup-resilience-names", "resilience.1.name", "retry"),
 	)
 	add("Pipeline", x13Pipeline, `
